@@ -1,14 +1,10 @@
-// simchain: L1/L2 simulator binary (full OsmosisApp engines).
+// sim-twap: L1 simulator binary with only the twap (C10) engine linked in.
 package main
 
 import (
 	"os"
 
-	_ "verif/harness/engines/authz"
-	_ "verif/harness/engines/cl"
-	_ "verif/harness/engines/lockup"
-	_ "verif/harness/engines/mint"
-	_ "verif/harness/engines/superfluid"
+	_ "verif/harness/engines/twap"
 	"verif/harness/simchain"
 	"verif/harness/simcore"
 )
